@@ -3,6 +3,7 @@ C01 — JA3 header equals the JA3 of the ClientHello the client sent.
 Property theorems (helper lemmas live in FpVerif/Lemmas/JA3.lean).
 -/
 import FpVerif.Lemmas.JA3
+import FpVerif.Lemmas.JA3Parse
 namespace Fp.C01
 open Fp Fp.JA3 Fp.Spec.JA3
 
@@ -26,6 +27,53 @@ def ja3Header (H : Bytes → Bytes) (rec : Bytes) : Except PErr Bytes :=
 theorem ja3Header_eq_spec (H : Bytes → Bytes) (rec : Bytes) :
     ja3Header H rec = (parseBasic rec).map (fun b => hexBytes (H (ja3String b))) := by
   unfold ja3Header; congr; funext b; rw [bare_eq_spec]
+
+/-- THE PROPERTY AT FULL STRENGTH for the pure part: for EVERY well-formed ClientHello (any number / order of cipher
+suites, extensions, groups, point formats, GREASE anywhere, with or without an extensions block, SNI, ALPN, any
+legacy / record version) and every hash `H`, the header value computed from the record the client sent is the hex
+digest of the JA3 string of THAT hello — `parseBasic ∘ serialize` loses nothing JA3 is defined over, and `bare` is the
+JA3 string. `HelloWF` excludes exactly: lengths that do not fit their fields, a raw extension claiming type 0/10/11,
+repeated supported_groups / ec_point_formats extensions (first-vs-last) and the tlsx SNI typo (finding D8). -/
+theorem ja3_of_hello (H : Bytes → Bytes) (h : Tls.Hello) (hw : HelloWF h) :
+    ja3Header H (Tls.serialize h) = .ok (hexBytes (H (ja3Spec h))) := by
+  rw [ja3Header_eq_spec, parseBasic_serialize h hw]
+  rfl
+
+/-- the value does not depend on anything but the hello: two connections that sent the same hello get the same header -/
+theorem ja3_function_of_hello (H : Bytes → Bytes) (h1 h2 : Tls.Hello) (h1w : HelloWF h1) (h2w : HelloWF h2)
+    (hs : ja3Spec h1 = ja3Spec h2) : ja3Header H (Tls.serialize h1) = ja3Header H (Tls.serialize h2) := by
+  rw [ja3_of_hello H h1 h1w, ja3_of_hello H h2 h2w, hs]
+
+/-- non-vacuity of `HelloWF`: a TLS 1.3-style hello with GREASE first / last, SNI, groups, point formats, ALPN,
+supported_versions and an unknown extension -/
+def sampleHello : Tls.Hello :=
+  { recVer := 0x0301, hsVer := 0x0303, random := List.replicate 32 7, sid := List.replicate 32 9,
+    ciphers := [0x0a0a, 4865, 4866, 0xc02b, 0xfafa], comp := [0],
+    exts := some [.raw 0x2a2a [], .sni [(0, strBytes "example.test")], .groups [0x3a3a, 29, 23], .points [0],
+                  .alpn [strBytes "h2", strBytes "http/1.1"], .versions [0x0304, 0x0303], .raw 65281 [0], .raw 0x1a1a [0]] }
+
+theorem sampleHello_wf : HelloWF sampleHello := by
+  refine ⟨by decide, by decide, by decide, by decide, ?_⟩
+  show (∀ e ∈ _, ExtWF e) ∧ _ ∧ _ ∧ _
+  refine ⟨?_, by decide, by decide, by decide⟩
+  intro e he
+  simp only [List.mem_cons, List.not_mem_nil, or_false] at he
+  rcases he with rfl | rfl | rfl | rfl | rfl | rfl | rfl | rfl
+  · exact ⟨by decide, by decide, by decide, by decide⟩
+  · exact ⟨by decide, by intro e he; simp at he; subst he; decide, by decide⟩
+  · show 2 * 3 < 65530; decide
+  · show 1 < 256; decide
+  · show _ < 65530; decide
+  · show 2 * 2 < 256; decide
+  · exact ⟨by decide, by decide, by decide, by decide⟩
+  · exact ⟨by decide, by decide, by decide, by decide⟩
+
+example : (parseBasic (Tls.serialize sampleHello)).map bare =
+    .ok (strBytes "771,4865-4866-49195,0-10-11-16-43-65281,29-23,0") := by
+  rw [parseBasic_serialize sampleHello sampleHello_wf]
+  simp only [Except.map]
+  rw [bare_eq_spec]
+  exact congrArg Except.ok (by decide)
 
 /-- non-vacuity: a concrete hello with GREASE first, last and in the middle. -/
 example : bare { hsVersion := 771, ciphers := [0x0a0a, 4865, 0x1a1a, 4866, 0xfafa], exts := [0x2a2a],
